@@ -699,7 +699,73 @@ def gen_datadecl():
     return {"added": len(added), "fold_arms": len(fold)}
 
 
-GENERATORS = [("GenRules", gen_rules), ("GenExprKind", gen_exprkind), ("GenDataDecl", gen_datadecl), ("GenPrec", gen_prec), ("GenPanicSites", gen_panic_sites), ("GenPipeline", gen_pipeline), ("GenTopo", gen_topo), ("GenStages", gen_stages), ("GenTokens", gen_tokens), ("GenLegend", gen_legend), ("GenDecoders", gen_decoders)]
+def gen_declrules():
+    """rule_decl_struct_element_unique_names.rs, rule_enumeration_values_unique.rs, rule_decl_subrange_limits.rs: the set
+    operations of the two scans (get, then push for Some(first) / insert for None), what each label is put on, and the arms of the
+    subrange comparison."""
+    def visitor_body(path):
+        src = read(path).split("#[cfg(test)]")[0]
+        src = "\n".join(code_lines(src))
+        m = re.search(r"impl Visitor<Diagnostic> for \w+ \{(.*)$", src, re.S)
+        if not m:
+            raise Refuse(path + ": the visitor not found")
+        return m.group(1)
+
+    def labels(body, path):
+        ls = re.findall(r"Label::span\(\s*([\w\.]+?)\.span\(\),\s*\"([^\"]*)\"\s*,?\s*\)", body)
+        prim = re.findall(r"Diagnostic::problem\(\s*Problem::(\w+),\s*Label::span\(\s*([\w\.]+?)\.span\(\)", body)
+        sec = re.findall(r"\.with_secondary\(\s*Label::span\(\s*([\w\.]+?)\.span\(\)", body)
+        if len(prim) != 1 or len(ls) != 1 + len(sec):
+            raise Refuse(path + ": the diagnostic is no longer one problem with labels on spans of named things: %r" % (ls,))
+        return prim[0][0], prim[0][1], sec
+
+    def scan(path, loop_var):
+        body = visitor_body(path)
+        m = re.search(r"let mut (\w+): HashSet<&Id> = HashSet::new\(\);", body)
+        if not m:
+            raise Refuse(path + ": the set of seen names not found")
+        st = m.group(1)
+        # a statement without effect does not count
+        body2 = re.sub(r"if %s\.contains\([^)]*\) \{\s*\}" % st, "", body)
+        ops = re.findall(r"\b%s\.(\w+)\(" % st, body2)
+        key = re.search(r"let seen = %s\.get\(&(\w+)\.(\w+)\);\s*match seen \{\s*Some\(first\) => \{\s*self\.diagnostics\.push\(" % st, body2)
+        ins = re.search(r"None => \{\s*%s\.insert\(&(\w+)\.(\w+)\);\s*\}" % st, body2)
+        if not key or not ins or key.groups() != ins.groups() or key.group(1) != loop_var:
+            raise Refuse(path + ": the scan is no longer get / Some(first) => push / None => insert on the loop variable's name")
+        code, prim, sec = labels(body2, path)
+        return ops, key.group(2), code, prim, sec
+
+    s_ops, s_key, s_code, s_prim, s_sec = scan("compiler/analyzer/src/rule_decl_struct_element_unique_names.rs", "element")
+    e_ops, e_key, e_code, e_prim, e_sec = scan("compiler/analyzer/src/rule_enumeration_values_unique.rs", "current")
+    path = "compiler/analyzer/src/rule_decl_subrange_limits.rs"
+    body = visitor_body(path)
+    r_code, r_prim, r_sec = labels(body, path)
+    sg = re.search(r"let signed = \|v: &SignedInteger\| \((.*?)\);", body)
+    mt = re.search(r"let is_less = match \(signed\(&node\.start\), signed\(&node\.end\)\) \{(.*?)\};", body, re.S)
+    if not sg or not mt or not re.search(r"if !is_less \{\s*self\.diagnostics\.push\(", body):
+        raise Refuse(path + ": the comparison is no longer a match on the signed bounds followed by `if !is_less`")
+    arms = [tuple(x.strip() for x in a.split("=>")) for a in mt.group(1).strip().rstrip(",").split(",\n")]
+    if any(len(a) != 2 for a in arms):
+        raise Refuse(path + ": the arms of the comparison are of no known form: %r" % (arms,))
+    lst = lambda xs: "[" + "; ".join(coq_string(x) for x in xs) + "]"
+    o = ["(* GENERATED by tools/translate.py from compiler/analyzer/src/rule_decl_struct_element_unique_names.rs,",
+         "   rule_enumeration_values_unique.rs and rule_decl_subrange_limits.rs -- do not edit *)",
+         "From Coq Require Import List String.", "Import ListNotations.", "Local Open Scope string_scope.", "",
+         "(* per scan: the operations on the set of seen names in the order they are written (statements without effect left out), the",
+         "   field of the loop variable that is the key, the problem, what the primary label is put on, what the secondary labels *)",
+         "Definition gen_struct_scan : list string * string * string * string * list string := (%s, %s, %s, %s, %s)." % (
+             lst(s_ops), coq_string(s_key), coq_string(s_code), coq_string(s_prim), lst(s_sec)),
+         "Definition gen_enum_scan : list string * string * string * string * list string := (%s, %s, %s, %s, %s)." % (
+             lst(e_ops), coq_string(e_key), coq_string(e_code), coq_string(e_prim), lst(e_sec)), "",
+         "(* the subrange rule: sign and magnitude of a bound, the arms of the comparison, the problem and its labels *)",
+         "Definition gen_sub_signed : string := %s." % coq_string(sg.group(1).strip()),
+         "Definition gen_sub_arms : list (string * string) := [" + "; ".join("(%s, %s)" % (coq_string(a), coq_string(b)) for a, b in arms) + "].",
+         "Definition gen_sub_labels : string * string * list string := (%s, %s, %s)." % (coq_string(r_code), coq_string(r_prim), lst(r_sec)), ""]
+    write_if_changed("GenDeclRules.v", "\n".join(o) + "\n")
+    return {"struct_ops": s_ops, "enum_ops": e_ops, "subrange_arms": len(arms)}
+
+
+GENERATORS = [("GenRules", gen_rules), ("GenDeclRules", gen_declrules), ("GenExprKind", gen_exprkind), ("GenDataDecl", gen_datadecl), ("GenPrec", gen_prec), ("GenPanicSites", gen_panic_sites), ("GenPipeline", gen_pipeline), ("GenTopo", gen_topo), ("GenStages", gen_stages), ("GenTokens", gen_tokens), ("GenLegend", gen_legend), ("GenDecoders", gen_decoders)]
 
 
 def main():
